@@ -395,6 +395,45 @@ def ctxvar_only(run, model, rule="C12.ctxvar-only"):
         run.ok(rule, "module-level state", "%d module-level mutable object(s); none is used by code reachable from the wrappers at call time" % len(mutables))
 
 
+def ctxvar_readable(run, model, rule="C12.readable-everywhere"):
+    """A thread or a fresh context starts with *no* binding of a context variable: ``cv.get()`` raises LookupError
+    there unless the variable was created with ``default=`` (a ``cv.set(...)`` at import time binds it in the importing
+    context only), the call passes a fallback, or the LookupError is handled on the spot (lazy creation)."""
+    ctxvars = context_vars(model)
+    seen = 0
+    for cv, default in sorted(ctxvars.items()):
+        for qual, fi in sorted(model.functions.items()):
+            if fi.module.name != cv[1]:
+                continue
+            parents = {}
+            for p in ast.walk(fi.node):
+                for c in ast.iter_child_nodes(p):
+                    parents[id(c)] = p
+            for call in ast.walk(fi.node):
+                if not (isinstance(call, ast.Call) and isinstance(call.func, ast.Attribute) and call.func.attr == "get" and isinstance(call.func.value, ast.Name) and call.func.value.id == cv[2]):
+                    continue
+                # the call belongs to the innermost function only
+                p, own = parents.get(id(call)), True
+                handled = False
+                prev = call
+                while p is not None and p is not fi.node:
+                    if isinstance(p, (ast.FunctionDef, ast.AsyncFunctionDef, ast.Lambda)):
+                        own = False
+                        break
+                    if isinstance(p, ast.Try) and any(prev is b for b in p.body):
+                        for h in p.handlers:
+                            names = [] if h.type is None else [src_of(x) for x in (h.type.elts if isinstance(h.type, ast.Tuple) else [h.type])]
+                            if h.type is None or any(x in ("LookupError", "Exception", "BaseException") for x in names):
+                                handled = True
+                    prev, p = p, parents.get(id(p))
+                if not own:
+                    continue
+                seen += 1
+                ok = default is not None or bool(call.args) or bool(call.keywords) or handled
+                run.check(ok, rule, fi.qual, "`%s` can be read in a context that never set it (default given / fallback passed / LookupError handled)" % src_of(call), "`%s.get()` without a fallback, and `%s` is created without `default=`: in a thread or context that did not inherit a binding the read raises LookupError instead of the call being checked" % (cv[2], cv[2]), fi.loc(call), None, first_line(call))
+    run.extra["ctxvar_reads_seen"] = seen
+
+
 MEMOISERS = ("lru_cache", "cache", "cached_property", "singledispatch")
 
 
